@@ -238,8 +238,30 @@ pub fn suite_clihuge(dir: &str, seed: u64, thorough: bool, st: &mut Stats) {
     out.finish();
 }
 
+/// sizes given with the GiB unit (chunk sizes up to 4 GiB - 1 are representable): what is recorded is what was asked for
+fn gib_unit_case(seed: u64, st: &mut Stats) {
+    let mut rng = Rng::new(seed ^ 0x9c);
+    let s = Scn::new("gib", 0);
+    let src = gen_data(&mut rng, 50_000).0;
+    s.write("src.bin", &src);
+    st.evaluations += 1;
+    st.oracle_checks += 1;
+    st.count("clirt/gib-unit");
+    let line = "clirt gib-unit --max-chunk-size 2GiB / --fixed-size 3GiB";
+    let (c1, l1) = s.bita(&["compress", "-i", "src.bin", "--min-chunk-size", "1KiB", "--avg-chunk-size", "4KiB", "--max-chunk-size", "2GiB", "g.cba"], None, &[]);
+    if c1 != 0 { st.violation("C11", &format!("compress with --max-chunk-size 2GiB fails: {}", l1.lines().last().unwrap_or("")), line); return; }
+    let (c2, l2) = s.bita(&["info", "g.cba"], None, &[]);
+    if c2 != 0 || !info_has(&l2, &["max"], "2147483648") || !info_has(&l2, &["min"], "1024") { st.violation("C11", "bita info does not report the maximum chunk size 2 GiB (2147483648 bytes) that was asked for", line); }
+    let (c3, _) = s.bita(&["clone", "g.cba", "g.out"], None, &[]);
+    if c3 != 0 || s.read("g.out").as_deref() != Some(&src[..]) { st.violation("C01", "an archive written with --max-chunk-size 2GiB is not cloned back to its source", line); }
+    let (c4, _) = s.bita(&["compress", "-i", "src.bin", "--fixed-size", "3GiB", "f.cba"], None, &[]);
+    let (c5, l5) = s.bita(&["info", "f.cba"], None, &[]);
+    if c4 != 0 || c5 != 0 || !info_has(&l5, &["fixed", "size"], "3221225472") { st.violation("C11", "bita info does not report the fixed chunk size 3 GiB (3221225472 bytes) that was asked for", line); }
+}
+
 pub fn suite_clirt(dir: &str, seed: u64, thorough: bool, st: &mut Stats) {
     big_header_case(seed, st);
+    gib_unit_case(seed, st);
     let mut out = SuiteOut::new(dir, "clirt");
     let n = if thorough { 400 } else { 48 };
     let nbig = if thorough { 4 } else { 1 };
